@@ -3,9 +3,9 @@ import ast
 
 from ..repo import AnalysisError
 from ..report import Ob, RuleSpec
-from ..astutil import (src, flat_guards, calls_in, call_name, kwarg, const_value,
+from ..astutil import (src, flat_guards, flatten_guard, calls_in, call_name, kwarg, const_value,
                        iter_own_nodes, ancestors, is_within, names_in, attr_chain)
-from ..cfg import cfg_of, Prov
+from ..cfg import cfg_of, Prov, resolve_local
 from ..irwrites import closure_effects, IR_MODULES
 from .. import variants as V
 
@@ -204,14 +204,23 @@ def r3_guard(repo):
         key = "write:" + (src(wn)[:60] if isinstance(wn, ast.Call) else src(wn.targets[0]))
         obs.append(Ob("C03-R3", key + ":guarded-by-feasibility-of-this-combination", _w(f, wn), ok, msg))
     # first accepted combination only
-    loops = [n for n in iter_own_nodes(fn) if isinstance(n, ast.For) and
-             any(isinstance(t, ast.Call) and call_name(t) == "is_combination_feasible"
-                 for s in n.body if isinstance(s, ast.If) for t in [s.test])]
+    # the search loop is the loop around the writes (second enclosing loop: the first iterates over the combination)
+    loops = []
+    for wn in writes:
+        inner = [a for a in ancestors(wn) if isinstance(a, ast.For)]
+        if len(inner) >= 2 and inner[1] not in loops:
+            loops.append(inner[1])
     ok = False
     if len(loops) == 1:
-        iff = [s for s in loops[0].body if isinstance(s, ast.If) and isinstance(s.test, ast.Call) and
-               call_name(s.test) == "is_combination_feasible"][0]
-        ok = isinstance(iff.body[-1], ast.Break)
+        # a `break` of the search loop that is taken exactly when the feasibility test held (whatever the layout: inside
+        # the `if`, or after an `if not feasible: continue`)
+        for b in [n for n in ast.walk(loops[0]) if isinstance(n, ast.Break)]:
+            own = [a for a in ancestors(b) if isinstance(a, (ast.For, ast.While))][:1] == [loops[0]]
+            gs = [(t, p) for t, p in flat_guards(b, stop=loops[0])]
+            feas = [t for t, p in gs if p and isinstance(t, ast.Call) and call_name(t) == "is_combination_feasible"]
+            rest = [src(t) for t, p in gs if p and not (isinstance(t, ast.Call) and call_name(t) == "is_combination_feasible")]
+            if own and len(feas) == 1 and not rest:
+                ok = True
     obs.append(Ob("C03-R3", "first-feasible-combination-only", _w(f), ok,
                   "the search must stop (`break`) right after applying the first accepted combination"))
     # candidates come from is_omittable() nodes only
@@ -221,8 +230,11 @@ def r3_guard(repo):
         it = loops[0].iter
         srcs = prov.sources(it)
         comps = [s for s in srcs if isinstance(s, ast.ListComp)]
+        # iterating a dict is iterating its keys: `for n in type_graph` and `for n in type_graph.keys()` are the same
+        graph_names = {src(t) for n_ in iter_own_nodes(fn) if isinstance(n_, ast.Assign) and isinstance(n_.value, ast.Call)
+                       and call_name(n_.value) == "result" for t in n_.targets}
         ok = any(any(src(i).endswith(".is_omittable()") for i in c.generators[0].ifs) and
-                 ".keys()" in src(c.generators[0].iter) for c in comps)
+                 (".keys()" in src(c.generators[0].iter) or src(c.generators[0].iter) in graph_names) for c in comps)
     obs.append(Ob("C03-R3", "candidates-are-omittable-graph-nodes", _w(f), ok,
                   "the combinations must be drawn from [n for n in type_graph.keys() if n.is_omittable()]"))
     # the function's graph is completed with the global graph, global entries taking precedence
@@ -423,6 +435,22 @@ def r7_feasibility_shape(repo):
         ok1 = "_handle_declaration_node" in calls and "_handle_type_inst_call_node" in calls and \
             any(pol and "DeclarationNode" in s_ for s_, pol in _g(calls["_handle_declaration_node"], stop=rm)) and \
             any(pol and "TypeConstructorInstantiationCallNode" in s_ for s_, pol in _g(calls["_handle_type_inst_call_node"], stop=rm))
+        if not ok1:
+            # dispatch-table form: a module-level dict {NodeKind: handler} looked up with type(node) and called
+            m_ = f.module
+            for gname, gval in m_.globals.items():
+                if isinstance(gval, ast.Dict) and {(src(k), src(v)) for k, v in zip(gval.keys, gval.values)} >= {
+                        ("DeclarationNode", "_handle_declaration_node"),
+                        ("TypeConstructorInstantiationCallNode", "_handle_type_inst_call_node")}:
+                    looked = [c for c in calls_in(rm) if call_name(c) in ("get", "__getitem__") and
+                              src(c.func.value) == gname and c.args and src(c.args[0]) == "type(%s)" % src(rm.target)]
+                    looked += [n for n in ast.walk(rm) if isinstance(n, ast.Subscript) and src(n.value) == gname and
+                               src(n.slice) == "type(%s)" % src(rm.target)]
+                    called = [c for c in calls_in(rm) if isinstance(c.func, ast.Name) and len(c.args) == 2 and
+                              [src(a) for a in c.args] == [graph, src(rm.target)] and any(
+                                  any(x is l for x in ast.walk(d[1])) for l in looked
+                                  for d in cfg_of(fn).defs_reaching(c.func.id, c) if isinstance(d[1], ast.AST))]
+                    ok1 = bool(looked) and bool(called)
         obs.append(Ob("C03-R7", "is_combination_feasible:removal-dispatch", _w(f, rm), ok1,
                       "declared edges are removed with the helper that matches the node kind"))
         dfs = [c for c in calls_in(v1) if call_name(c) == "dfs"]
@@ -445,6 +473,21 @@ def r7_feasibility_shape(repo):
         ok3 = ok3 and any(const_value(s_.value, 1) is False for s_ in sets) and \
             any("assigned_t" in src(s_.value) and "n.t ==" in src(s_.value) for s_ in sets) and \
             any("removed_decls" in src(s_.value) and "not in" in src(s_.value) for s_ in sets)
+        if not ok3 and len(dfs2) == 1 and src(dfs2[0].args[0]) == graph and len(neg2) == 1:
+            # the same verification written with any(): `if not any(n.t == assigned_t and not (n.parent_id and n.parent_id
+            # in removed_decls) for n in dfs(..) if isinstance(n, TypeNode)): return False`
+            gs2 = flat_guards(neg2[0], stop=v2)
+            anys = [t for t, p in gs2 if not p and isinstance(t, ast.Call) and call_name(t) == "any" and t.args and
+                    isinstance(t.args[0], ast.GeneratorExp) and is_within(dfs2[0], t)]
+            if len(anys) == 1:
+                ge = anys[0].args[0]
+                conj = [" ".join(src(a).split()) for a, p in flatten_guard(ge.elt, True) if p] + \
+                       ["not " + " ".join(src(a).split()) for a, p in flatten_guard(ge.elt, True) if not p]
+                filt = [" ".join(src(i).split()) for g_ in ge.generators for i in g_.ifs]
+                v = src(ge.generators[0].target)
+                ok3 = any(c_ in ("%s.t == assigned_t" % v, "assigned_t == %s.t" % v) for c_ in conj) and \
+                    any("removed_decls" in c_ and c_.startswith("not ") for c_ in conj) and \
+                    any("isinstance(%s, TypeNode)" % v == x for x in filt + conj)
         # the search starts at each type variable of the call (the dfs is per type variable, not per call node: from
         # the call node every sibling type variable's type is reachable as well)
         inner = [x for x in ast.walk(v2) if isinstance(x, ast.For) and x is not v2 and isinstance(x.target, ast.Name)
@@ -474,6 +517,13 @@ def r7_feasibility_shape(repo):
     ok = len(apps) == 1 and ("e.is_declared()", False) in _g(apps[0])
     st = [n for n in iter_own_nodes(h.node) if isinstance(n, ast.Assign) and src(n.targets[0]) == "%s[%s]" % (h.params[0], h.params[1])]
     ok = ok and len(st) == 1 and src(st[0].value) == "new_edges"
+    if not ok and len(st) == 1 and isinstance(st[0].value, ast.ListComp):
+        # the same filter as a comprehension over the node's edges
+        lc = st[0].value
+        it = resolve_local(h.node, lc.generators[0].iter, st[0])
+        ok = len(lc.generators) == 1 and src(lc.elt) == src(lc.generators[0].target) and \
+            [" ".join(src(i).split()) for i in lc.generators[0].ifs] == ["not %s.is_declared()" % src(lc.elt)] and \
+            src(it) == "%s[%s]" % (h.params[0], h.params[1])
     obs.append(Ob("C03-R7", "_handle_declaration_node:keeps-exactly-the-inferred-edges", _w(h), ok,
                   "omitting a declared type removes the declared edges of that node and keeps the inferred ones"))
     h = repo.fn(TDA + "._handle_type_inst_call_node")
